@@ -59,6 +59,20 @@ Fixpoint dec_aevents (fuel : nat) (l : list Z) : option (list aevent) :=
     end
   end.
 
+(* one event off the front of a case (the same language as dec_aevents) *)
+Definition dec_aevent1 (l : list Z) : option (aevent * list Z) :=
+  match l with
+  | 1 :: id :: dlc :: b0 :: b1 :: b2 :: b3 :: b4 :: b5 :: b6 :: b7 :: t =>
+      Some (AInject (CanNet.le32 id ++ [dlc; 0; 0; 0; b0; b1; b2; b3; b4; b5; b6; b7]), t)
+  | 2 :: t => Some (ATick, t)
+  | 3 :: t => match dec_motion t with Some (m, r) => Some (ACmd (OMotion m), r) | None => None end
+  | 7 :: k :: t => Some (ACmd (other_object k), t)
+  | 4 :: ms :: t => Some (AWait ms, t)
+  | 5 :: t => Some (ASetup, t)
+  | 6 :: t => Some (ATeardown, t)
+  | _ => None
+  end.
+
 Record acase := { ac_addr : Z; ac_name : jname; ac_confs : list dconf; ac_events : list aevent }.
 
 Definition acase_of (l : list Z) : option acase :=
@@ -72,6 +86,17 @@ Definition acase_of (l : list Z) : option acase :=
                                 ac_name := {| n_mfr := mfr; n_finst := fi; n_ecu := ecu; n_func := fn; n_vs := vs; n_vsi := vsi; n_ig := ig |};
                                 ac_confs := cs; ac_events := evs |}
           | None => None end
+      | None => None end
+  | _ => None
+  end.
+
+(* the header alone: address, name, driver entries, and the undecoded events *)
+Definition ahead_of (l : list Z) : option (Z * jname * list dconf * list Z) :=
+  match l with
+  | addr :: mfr :: fi :: ecu :: fn :: vs :: vsi :: ig :: n :: t =>
+      if (n <? 0) || (Z.of_nat (length t) <? n) then None else
+      match dec_dconfs (Z.to_nat n) t with
+      | Some (cs, r) => Some (addr, {| n_mfr := mfr; n_finst := fi; n_ecu := ecu; n_func := fn; n_vs := vs; n_vsi := vsi; n_ig := ig |}, cs, r)
       | None => None end
   | _ => None
   end.
